@@ -105,19 +105,24 @@ def gen(rng, tier):
     if mode == "body":
         for k in range(j):
             add(W, ["send", "c0", f"c0:w2i:{W}:{k}", L.gen_fill(rng)], "ok")
-        add(W, ["raise", "body boom"], "raised")
+        msg, ekind = rng.choice([("body boom", "exc")] * 4 + [("body boom", "base"), ("body bôom ☃", "exc"),
+                                                               ("body boom \ud800 lone surrogate", "exc"),
+                                                               ("body boom", "badstr")])
+        add(W, ["raise", msg, ekind], "raised")
+        # (an exception whose str() fails still arrives with its type and traceback)
+        exp_err = "remotetext:BodyErrorS" if ekind == "badstr" else "remote:BodyError"
         R = new_actor("i")
         local.append(R)
         style = rng.choice(["recv", "recv", "waitclose", "cb"])
         if style == "recv":
             for k in range(j):
                 add(R, ["recv", "c0"], "item")
-            add(R, ["recv", "c0"], "remote:BodyError")
+            add(R, ["recv", "c0"], exp_err)
             add(R, ["recv", "c0"], "eof")
             add(R, ["waitclose", "c0", 60], "ok")
             add(R, ["isclosed", "c0"], "true")
         elif style == "waitclose":
-            add(R, ["waitclose", "c0", 600], "remote:BodyError")
+            add(R, ["waitclose", "c0", 600], exp_err)
             for k in range(j):
                 add(R, ["recv", "c0"], "item")
             add(R, ["recv", "c0"], "eof")
@@ -125,7 +130,7 @@ def gen(rng, tier):
         else:
             add(R, ["setcb", "c0", True, None, None, None, "c07-end"], "ok")
             add(R, ["latch_wait", "c07-end", 600], "true")
-            add(R, ["waitclose", "c0", 600], "remote:BodyError")
+            add(R, ["waitclose", "c0", 600], exp_err)
             add(R, ["waitclose", "c0", 60], "ok")
     elif mode in ("cb_i", "cb_i_dropped"):
         n = j + 1 + extra
